@@ -162,6 +162,10 @@ class Exec(Core):
             return v.t
         if (kind == 'ref' or ref_cls(kind)) and isinstance(v, VOpaque):
             return v.t
+        if (kind == 'ref' or ref_cls(kind)) and isinstance(v, VPtr):
+            # a heap object escapes into a flat container: kept only by identity (its content is not
+            # reachable through the container any more - reading it back yields an opaque reference)
+            return z3.Const(f'addr!{v.addr}', RefSort)
         if isinstance(kind, tuple) and kind[0] == 'tuple' and isinstance(v, VTuple) \
                 and len(v.items) == len(kind) - 1:
             s = kind_sort(kind)
